@@ -1,5 +1,5 @@
 //@ fn canonical.rs canonicalize_uri_path
-//@ props C08 C09 C13
+//@ props C08 C09 C13 C17
 //@ ret res
 //@ replace 1 `let uri_path = if s3 {` => `let uri_path_cow = if s3 {`
 //@ replace 1 `uri_path.starts_with('/')` => `str_starts_with_char(uri_path, '/')`
@@ -12,7 +12,7 @@
         (STRICT_D6 || plus_free(uri_path.spec_bytes())) ==> (match res {
             Ok(o) => canon_path(uri_path.spec_bytes(), s3) == Some(str_bytes(o@)),
             Err(e) => canon_path(uri_path.spec_bytes(), s3) is None,
-        }), //# C09 C02 name=canonical_path
+        }), //# C09 C02 C01 name=canonical_path
         res is Err ==> res->Err_0 is InvalidURIPath, //# C09 C13 name=error_kind
 //@ bodystart
     let ghost p0 = uri_path.spec_bytes();
